@@ -44,6 +44,22 @@ EXTRA = [
     "Option<sea_query::SimpleExpr>",
     "(sea_query::DynIden, sea_query::SimpleExpr)",
     "Box<dyn sea_query::QueryStatementBuilder + Send + Sync>",
+    "<sea_query::DynIden as sea_query::IdenList>::IntoIter",
+    "<(sea_query::DynIden, sea_query::DynIden) as sea_query::IdenList>::IntoIter",
+    "<(sea_query::DynIden, sea_query::DynIden, sea_query::DynIden) as sea_query::IdenList>::IntoIter",
+]
+# value-level obligations: the (unnameable) types public functions hand out
+EXTRA_VALUES = [
+    ("values_iter", "v: &'static sea_query::Values", "v.iter()"),
+    ("tokenizer_iter", "t: sea_query::Tokenizer", "t.iter()"),
+    ("select_to_owned", "q: &'static sea_query::SelectStatement", "q.to_owned()"),
+    ("build_result", "q: &'static sea_query::SelectStatement", "q.build(sea_query::PostgresQueryBuilder)"),
+    ("build_any_result", "q: &'static sea_query::InsertStatement", "q.build_any(&sea_query::MysqlQueryBuilder)"),
+    ("cond_any", "", "sea_query::Cond::any()"),
+    ("expr_col", "", "sea_query::Expr::col(sea_query::Alias::new(\"a\"))"),
+    ("func_call", "", "sea_query::Func::cust(sea_query::Alias::new(\"f\"))"),
+    ("case_stmt", "", "sea_query::CaseStatement::new()"),
+    ("returning", "", "sea_query::Query::returning().all()"),
 ]
 
 DECL = re.compile(r"^\s*pub (struct|enum|type) ([A-Za-z_][A-Za-z0-9_]*)\s*(<[^>]*>)?")
@@ -103,10 +119,17 @@ def scan():
     return found
 
 
-IMPL_ITER = re.compile(r"^impl(?:<[^>]*>)?\s+(?:std::iter::)?IntoIterator\s+for\s+(&\s*(?:'\w+\s+)?)?([A-Za-z_][A-Za-z0-9_]*)\s*\{?")
+IMPL_FOR = re.compile(r"^impl\s+([A-Za-z_:][A-Za-z0-9_:]*(?:<[^>{]*>)?)\s+for\s+([A-Za-z_][A-Za-z0-9_]*(?:<[^>{]*>)?)\s*(?:where\b.*)?\{?\s*$")
+ASSOC = re.compile(r"^\s+type\s+([A-Za-z_][A-Za-z0-9_]*)\s*=")
+STD_TRAITS = {
+    "IntoIterator": "IntoIterator", "Iterator": "Iterator", "ops::Deref": "std::ops::Deref",
+    "Deref": "std::ops::Deref", "std::ops::Deref": "std::ops::Deref", "FromStr": "std::str::FromStr",
+    "std::str::FromStr": "std::str::FromStr",
+}
 
 
 def scan_into_iter():
+    """associated types of non-generic `impl Trait for Type` blocks: (label, type expr, cfgs, file)"""
     out = []
     src = os.path.join(REPO, "src")
     for root, _, files in sorted(os.walk(src)):
@@ -118,19 +141,40 @@ def scan_into_iter():
             if rel.startswith("tests_cfg"):
                 continue
             lines = open(full, encoding="utf-8").read().split("\n")
+            cur = None
             for i, l in enumerate(lines):
                 if l.startswith("#[cfg(test)]"):
                     break
-                m = IMPL_ITER.match(l)
-                if not m or m.group(1):
+                m = IMPL_FOR.match(l)
+                if m:
+                    trait, ty = m.group(1), m.group(2)
+                    cfgs = []
+                    j = i - 1
+                    while j >= 0 and lines[j].strip().startswith("#["):
+                        if lines[j].strip().startswith("#[cfg("):
+                            cfgs.append(map_cfg(lines[j]))
+                        j -= 1
+                    cur = (trait, ty, cfgs)
                     continue
-                cfgs = []
-                j = i - 1
-                while j >= 0 and lines[j].strip().startswith("#["):
-                    if lines[j].strip().startswith("#[cfg("):
-                        cfgs.append(map_cfg(lines[j]))
-                    j -= 1
-                out.append((m.group(2), module_prefix(rel), cfgs, rel))
+                if l.startswith("}"):
+                    cur = None
+                    continue
+                a = ASSOC.match(l)
+                if a and cur:
+                    trait, ty, cfgs = cur
+                    if "<" in trait and not trait.startswith("TryFrom") and not trait.startswith("From"):
+                        continue
+                    tpath = STD_TRAITS.get(trait)
+                    if tpath is None:
+                        if "<" in trait:
+                            # TryFrom<X> etc.: generic parameter types are assumed to be in std's prelude or the crate root
+                            tpath = trait
+                        else:
+                            tpath = module_prefix(rel) + trait
+                    typ = ty if "::" in ty else module_prefix(rel) + ty
+                    if ty.startswith("SeaRc<"):
+                        typ = "sea_query::SeaRc<dyn sea_query::Iden>"
+                    out.append(("%s_%s" % (re.sub(r"[^A-Za-z0-9]", "_", ty), a.group(1)), "<%s as %s>::%s" % (typ, tpath, a.group(1)), cfgs, rel))
     return out
 
 
@@ -165,8 +209,8 @@ def obligations(found):
         obs.append(("ob_extra_%d" % k, t, [], "extra"))
     # iterator types that public types hand out (`impl IntoIterator for X`): they are part of the
     # value API although no `pub struct` line declares them
-    for k, (name, prefix, cfgs, rel) in enumerate(scan_into_iter()):
-        obs.append(("ob_intoiter_%s_%d" % (name, k), "<%s%s as IntoIterator>::IntoIter" % (prefix, name), cfgs, rel))
+    for k, (label, texpr, cfgs, rel) in enumerate(scan_into_iter()):
+        obs.append(("ob_assoc_%s_%d" % (label, k), texpr, cfgs, rel))
     return obs, unlisted
 
 
@@ -178,6 +222,7 @@ use std::task::{Context, Poll};
 
 pub fn assert_send_sync<T: ?Sized + Send + Sync>() {}
 pub fn assert_send_future<F: Future + Send>(_: F) {}
+pub fn assert_val<T: Send + Sync>(_: &T) {}
 
 pub struct YieldOnce(bool);
 impl Future for YieldOnce {
@@ -219,6 +264,13 @@ def generate(obs, dropped):
             lines_of[n] = fn
             out.append(b + "\n")
             n += 1
+    for name, params, expr in EXTRA_VALUES:
+        fn = "ob_value_" + name
+        if fn in dropped:
+            continue
+        lines_of[n] = fn
+        out.append("pub fn %s(%s) { let x = %s; assert_val(&x); assert_send_future(hold(x)); }\n" % (fn, params, expr))
+        n += 1
     open(os.path.join(CRATE, "src/lib.rs"), "w").write("".join(out))
     return lines_of
 
@@ -239,7 +291,7 @@ def cargo_check(features):
 
 
 THREAD_MSG = ("cannot be sent between threads safely", "cannot be shared between threads safely")
-DROP_CODES = {"E0412", "E0433", "E0107", "E0425", "E0603", "E0432", "E0404", "E0405", "E0782", "E0277x"}
+DROP_CODES = {"E0412", "E0433", "E0107", "E0425", "E0603", "E0432", "E0404", "E0405", "E0782", "E0576", "E0220", "E0223", "E0191", "E0599", "E0061", "E0308", "E0423"}
 
 
 def classify(msgs, lines_of):
